@@ -166,6 +166,20 @@ Fixpoint normalize (O : oracles) (n : norm) (t : list N) : result :=
         l (Ok t (seq 0 (blen t)))
   end.
 
+(* the loop body of Sequence::normalize, named (normalize_seq in the proofs file shows that
+   [normalize O (NSeq l) t] is the left fold of this step) *)
+Definition seq_step (O : oracles) (tlen : nat) (acc : result) (n' : norm) : result :=
+  match acc with
+  | Ok m offs =>
+      match normalize O n' m with
+      | Ok u next => Ok u (remap offs tlen next)
+      | Err => Err
+      | Panic => Panic
+      end
+  | Err => Err
+  | Panic => Panic
+  end.
+
 (* ---------- specification side ---------- *)
 (* o is a char boundary of t: the start of a char, or the end of the text *)
 Definition boundary (t : list N) (o : nat) : Prop :=
